@@ -240,7 +240,11 @@ class Report:
     def classify(self, key: str):
         """Return the matching open finding for a violation key, or None."""
         for f in self.findings:
-            if f.get("key") == key:
+            if f.get("key") == key or key in f.get("keys", []):
+                return f
+            # a finding may name a family of keys that share one root cause by prefix / suffix; the
+            # prefixes are as specific as the failing call site allows (see known_findings.json)
+            if any(key.startswith(p) for p in f.get("key_prefixes", [])) or any(key.endswith(s) for s in f.get("key_suffixes", [])):
                 return f
         return None
 
